@@ -83,7 +83,7 @@ def _tail_ncdf(term, row, full):
     return found[0]
 
 
-def check_engine(term, rec, tag, keyname, case, share=False):
+def check_engine(term, rec, tag, keyname, case, share=False, av_order='same'):
     """Engine path on all in-domain rows, both parameter points."""
     from vf.engine import make_db, engine_values, is_engine_error
 
@@ -94,7 +94,7 @@ def check_engine(term, rec, tag, keyname, case, share=False):
             rec.count('formula_points_without_valid_row')
             continue
         try:
-            expr = R.Builder(G.betas_spec(), share=share).build(term)
+            expr = R.Builder(G.betas_spec(), share=share, av_order=av_order).build(term)
             db = make_db([r for _, r in rows], G.COLUMNS)
             vals = engine_values(expr, db, betas_arg)
         except Exception as e:
@@ -226,7 +226,7 @@ def pool_formulas():
                                          (3, ('*', ('beta', 'B2'), ('var', 'x2')), None))),
         ('elem', ('var', 'z'), ((0, ('beta', 'b10')), (1, ('*', ('beta', 'a_fix'), ('var', 'x1'))), (2, ('num', 3.0)))),
         ('*', ('var', 'x1'), ('num', 2.0)),
-        ('-', ('beta', 'b_a'), ('/', ('beta', 'b10'), ('var', 'x1'))),
+        ('-', ('*', ('beta', 'a_fix'), ('beta', 'b_a')), ('/', ('beta', 'Z_fix'), ('var', 'x1'))),
         ('ncdf', ('-', ('var', 'x2'), ('beta', 'B2'))),
     ]
     return P
@@ -281,7 +281,8 @@ def run_task(task):
                 case = dict(part='triple', p=p, s=s, q=q, rot=task['rot'])
                 if idx == task['lo']:
                     rec.sample(dict(triple=tag, formula=R.show(term)))
-                check_engine(term, rec, tag, f'{p}[{G.slot_name(p, s)}]', case)
+                check_engine(term, rec, tag, f'{p}[{G.slot_name(p, s)}]', case,
+                             av_order='same' if task['rot'] == 0 else ('reversed' if idx % 2 else 'rotated'))
                 if task['rot'] == 0:
                     check_python(term, rec, tag, f'{p}[{G.slot_name(p, s)}]', case)
         elif part == 'share':
@@ -383,6 +384,8 @@ def replay(case):
                 check_python(term, rec, 'replay', kn, case)
             else:
                 check_engine(term, rec, 'replay', kn, case)
+            check_engine(term, rec, 'replay', kn, case, av_order='reversed')
+            check_engine(term, rec, 'replay', kn, case, av_order='rotated')
         elif part == 'share':
             tag, term, p, q = share_terms()[case['idx']]
             if case.get('shared'):
